@@ -5,4 +5,4 @@ Require Extraction.
 Require Import ExtrOcamlBasic ExtrOcamlString.
 Extraction Language OCaml.
 Extraction "../ocaml/c14/model.ml" ginit sinit g_accept s_accept prop_exec_ok prop_batch_tail
-  mk_batch_frame obs_of_outcome decode_rows chunk_rows node_answer node_event stale_check known_classb quadrantb g_par present_ok prepare_on_all prep_accept session_prep_accept.
+  mk_batch_frame obs_of_outcome decode_rows chunk_rows node_answer node_event stale_check known_classb quadrantb g_par present_ok prepare_on_all prep_accept session_prep_accept plain_node_check known_class_prepb.
